@@ -356,7 +356,33 @@ func ruleR41(c *Ctx) *RuleResult {
 					okRoot := strings.Contains(s, "(fa:heap p:0)") && (strings.HasSuffix(s, " #:0)))") || strings.Contains(s, ").Peek ")) && rv.Op == "ext"
 					// a helper's result (an unknown helper is expanded; a known one would be a call): not judged
 					okHelper := rv.Op == "res" || (rv.Op == "ext" && len(rv.Args) == 1 && rv.Args[0].Op == "res" && !okPop && rv.Args[0].Args[0].Op == "do" && !strings.HasSuffix(rv.Args[0].Args[0].Leaf, ").Pop") && !strings.Contains(rv.Args[0].Args[0].Leaf, "arraylist"))
-					if !okPop && !okRoot && !okHelper {
+					// a loop variable that only ever receives Pop results (the discard-pops and the final pop merged into one
+					// loop that remembers the last value popped)
+					okPhi := false
+					if rv.Op == "φ" {
+						parts := strings.SplitN(rv.Leaf, ".", 2)
+						if len(parts) == 2 {
+							k, j := parts[0], atoiOr(parts[1], -1)
+							okPhi = true
+							some := false
+							for _, h := range gc.GCs {
+								if h.Exit.Op != "goto" || h.Exit.Leaf != k || j < 0 || j >= len(h.Exit.Args) {
+									continue
+								}
+								a := h.Exit.Args[j]
+								isPop := a.Op == "ext" && a.Leaf == "0" && len(a.Args) == 1 && a.Args[0].Op == "res" && len(a.Args[0].Args) == 1 && a.Args[0].Args[0].Op == "do" && strings.HasSuffix(a.Args[0].Args[0].Leaf, ").Pop")
+								switch {
+								case isPop:
+									some = true
+								case a.Op == "#" || a.String() == rv.String():
+								default:
+									okPhi = false
+								}
+							}
+							okPhi = okPhi && some
+						}
+					}
+					if !okPop && !okRoot && !okHelper && !okPhi {
 						bad = append(bad, "a path of Value() answers "+trunc(s, 160)+" — not the result of popping the level's temporary heap: "+trunc(guardsString(g), 160))
 					}
 				}
